@@ -273,6 +273,10 @@ class Model:
                     ok, msg = True, (msg2 if ok2 else msg1)
                 else:
                     ok, msg = False, "%s; %s" % (msg1, msg2)
+                # the non-ASCII side, where it has the recognisable `\\u{:04x}` shape: exactly four zero-padded hex digits
+                ok3, msg3 = escaper.json_u_escape_form(self.fx, name)
+                if ok and ok3 is False:
+                    ok, msg = False, msg3
                 self.escapers[name] = (bool(ok), msg)
         return self.escapers[name]
 
